@@ -122,6 +122,19 @@ CHECKS['C07'] = (
     'have <= 3 ROADM sites.',
     'DESIGN.md 3/C07')
 
+CHECKS['C08'] = (
+    'deviation-bounded enumeration of micro topologies x Span configurations through the real loaders and designed_network, '
+    'structural oracle on the designed graph',
+    'Every topology/configuration within 2 (quick) / 3 (thorough) deviations of several base points over site graph (4), chain '
+    'of the first link in both directions (25 chains: fibres from 50 m to 1500 km, spliced fibres, fused junctions incl. two in a '
+    'row, user amplifiers with full / partial settings, lumped losses, input pad, per-frequency loss, Raman spans), Span '
+    'padding / EOL / max_length / connector defaults, power or gain mode and library is designed; the oracle requires complete '
+    'amplifiers and fibres, padding on every amplifier-to-amplifier span, long fibres split into equal spans preserving length, '
+    'attenuation, lumped losses and pad, no fibre-fibre / ROADM-fibre adjacency, one-in/one-out line elements, unique names and '
+    'unchanged reachability; any exception other than the documented "no amplifier satisfies" rejection is a violation.',
+    'Span settings with padding/0.2 >= max_length contradict each other and are not explored; topologies have <= 4 ROADM sites.',
+    'DESIGN.md 3/C08')
+
 ALL = [f'C{i:02d}' for i in range(1, 21)]
 NOT_BUILT_REASON = 'check not built yet in this round (planned, see DESIGN.md section 3); not claimed until it runs'
 
